@@ -125,18 +125,24 @@ def execute(w, o, tmpdir):
     nid = dict(n_first=o["n"], n_second=o["n"], m_first=o["m"], m_second=o["m"])
     T = w.t + o["toff"]
     if op == "flux":
-        return w.pv.calculate_partial_fluxes(T, x, w.precision, tp, pp, calculation_type=o["model"])
+        r = w.pv.calculate_partial_fluxes(T, x, w.precision, tp, pp, calculation_type=o["model"])
+        w.raw = [r]
+        return (float(r[0]), float(r[1]))
     if op == "permeate_composition":
-        return w.pv.calculate_permeate_composition(w.t, x, w.precision, tp, pp, o["model"]).p
+        y = w.pv.calculate_permeate_composition(w.t, x, w.precision, tp, pp, o["model"])
+        w.raw = [y]
+        return y.p
     if op == "separation_factor":
         return w.pv.calculate_separation_factor(w.t, x, tp, pp, w.precision, o["model"])
     if op == "ideal_curve":
         c = w.pv.ideal_diffusion_curve(T, w.comps, tp, pp, w.precision, o["model"])
+        w.raw = [c]
         return [dump_curve(c), c.get_separation_factor, c.get_psi, c.get_selectivity, [[q.value for q in p] for p in c.get_permeances],
                 [y.p for y in c.permeate_composition]]
     if op in ("ideal_iso", "ideal_noniso", "ideal_iso_save"):
         kind = "ideal_non_isothermal_process" if op == "ideal_noniso" else "ideal_isothermal_process"
         m = getattr(w.pv, kind)(conditions=cond, number_of_steps=o["steps"], delta_hours=o["dt"], precision=w.precision, calculation_type=o["model"])
+        w.raw = [m]
         out = [dump_model(m), m.get_separation_factor, m.get_psi, m.get_selectivity]
         if op == "ideal_iso_save" and w.mix.name in gen.BUILTIN_MIXTURES:
             d = tempfile.mkdtemp(dir=tmpdir)
@@ -147,17 +153,21 @@ def execute(w, o, tmpdir):
         c = w.pv.non_ideal_diffusion_curve(diffusion_curve_set=w.curve_set, feed_temperature=w.t, initial_feed_composition=x, delta_composition=0.01,
                                            number_of_steps=o["steps"], permeate_temperature=tp, permeate_pressure=pp, initial_permeances=w.init_perm,
                                            precision=w.precision, calculation_type=o["model"], include_zero=bool(o["idx"]), **nid)
+        w.raw = [c]
         return dump_curve(c)
     if op in ("nonideal_iso", "nonideal_noniso"):
         kind = "non_ideal_isothermal_process" if op == "nonideal_iso" else "non_ideal_non_isothermal_process"
         m = getattr(w.pv, kind)(conditions=cond, diffusion_curve_set=w.curve_set, number_of_steps=o["steps"], delta_hours=o["dt"], precision=w.precision,
                                 calculation_type=o["model"], initial_permeances=w.init_perm, include_zero=bool(o["idx"]), **nid)
+        w.raw = [m] + list(m.permeance_fits or [])
         return [dump_model(m), m.get_psi]
     if op in ("fit", "fit_zero"):
         f = fit(w.meas, n=o["n"], m=o["m"], include_zero=op == "fit_zero", component_index=o["idx"])
+        w.raw = [f]
         return (f.n, f.m, float(f.alpha), [float(v) for v in f.a], [float(v) for v in f.b])
     if op in ("find_best_fit", "find_best_fit_zero"):
         f = find_best_fit(w.meas, n=o["n"], m=o["m"], include_zero=op == "find_best_fit_zero", component_index=o["idx"])
+        w.raw = [f]
         return (f.n, f.m, float(f.alpha), [float(v) for v in f.a], [float(v) for v in f.b])
     if op == "measurements":
         a, b = Measurements.from_diffusion_curves_first(w.curve_set), Measurements.from_diffusion_curves_second(w.curve_set)
@@ -170,12 +180,88 @@ def execute(w, o, tmpdir):
     raise KeyError(op)
 
 
+def _protected(w):
+    """ids of everything reachable from the shared argument objects and the built-ins (never touched by `spoil`), and the
+    numpy arrays among them"""
+    import attr
+    import numpy
+    from pyvaporation.components import Components
+    from pyvaporation.mixtures import Mixtures
+
+    ids, arrays = set(), []
+    stack = list(w.shared().values()) + [w.pv] + [v for cls in (Mixtures, Components) for k, v in vars(cls).items() if not k.startswith("_")]
+    while stack:
+        obj = stack.pop()
+        if id(obj) in ids or obj is None or isinstance(obj, (int, float, str, bool)):
+            continue
+        ids.add(id(obj))
+        if isinstance(obj, numpy.ndarray):
+            arrays.append(obj)
+        elif isinstance(obj, (list, tuple, set)):
+            stack.extend(obj)
+        elif isinstance(obj, dict):
+            stack.extend(obj.values())
+        elif attr.has(type(obj)):
+            stack.extend(getattr(obj, f.name, None) for f in attr.fields(type(obj)))
+        elif hasattr(obj, "__dict__"):
+            stack.extend(vars(obj).values())
+    return ids, arrays
+
+
+def spoil(raw, w):
+    """overwrite the containers of returned objects in place (first level of lists / arrays / attrs fields); objects that are
+    (or share memory with) the caller's shared arguments are left alone.  -> number of containers spoilt"""
+    import attr
+    import numpy
+
+    ids, arrays = _protected(w)
+    n = 0
+
+    def one(obj):
+        nonlocal n
+        if obj is None or id(obj) in ids:
+            return
+        if isinstance(obj, numpy.ndarray):
+            if obj.size and obj.flags.writeable and not any(numpy.shares_memory(obj, a) for a in arrays):
+                obj[...] = -12345.678 if obj.dtype.kind == "f" else obj
+                n += 1
+        elif isinstance(obj, list):
+            if obj:
+                obj[0] = None
+                obj.append(None)
+                n += 1
+
+    for r in raw:
+        if r is None or id(r) in ids:
+            continue
+        one(r)
+        if attr.has(type(r)):
+            for f in attr.fields(type(r)):
+                one(getattr(r, f.name, None))
+            for name in ("alpha", "p"):
+                if hasattr(r, name) and isinstance(getattr(r, name), float):
+                    try:
+                        setattr(r, name, 0.123456789)
+                        n += 1
+                    except Exception:
+                        pass
+    return n
+
+
 def run_op(w, o, tmpdir):
     """-> ('ok', deep dump) | ('raised', type name) | ('slow', None)"""
     try:
+        w.raw = []
         with guards.budget(proc.SOFT_BUDGET):
             r = execute(w, o, tmpdir)
-        return "ok", fingerprint.deep(r)
+        d = fingerprint.deep(r)
+        # the caller owns what was returned to it: it recycles / overwrites those objects; whatever the library does later
+        # must not depend on them (a memo that hands the same object out again would now hand out the spoilt one)
+        try:
+            w.spoilt = getattr(w, "spoilt", 0) + spoil(w.raw, w)
+        except Exception:
+            pass
+        return "ok", d
     except guards.BudgetExceeded:
         return "slow", None
     except Exception as e:
@@ -229,6 +315,7 @@ def one_history(rep, spec, index, key, tmp, base_builtins):
         now = builtins_fingerprint()
         changed = [n for n in base_builtins if now.get(n) != base_builtins[n]]
         rep.require("built-in components and mixtures are never modified", not changed, ck, {"changed": changed})
+    rep.count("returned_containers_spoilt_by_the_caller", getattr(w, "spoilt", 0))
     # repeat one call at the end of the history
     k = len(ops) // 2
     st, d = run_op(w, ops[k], tmp)
